@@ -224,6 +224,11 @@ def run(ctx):
     # ---- REGISTRY (shared with C05)
     c05.registry(ctx, h, res)
     roundtrip_state(ctx, h, res)
+    # ---- the copy is usable: graphs copied through the object protocol into fresh class-level state answer every structural query,
+    # traversal and search like the original's reference model, before and after every public mutation, caching on or off
+    from rules import hist
+    hist.run(ctx, res, "C10", rule="COPY-HISTORY", schedules=("unpickled-on", "unpickled-off"))
+    common.vacuity(res, "COPY-HISTORY", 8000)
     common.vacuity(res, "SPLICE-ORDER", 60)
     res.analysed = common.analysed(ctx, [MOD + ".dumps", MOD + ".dump", MOD + "._NonrecursivePickler.dump", MOD + "._NonrecursivePickler.save"])
     res.extra["not_decided"] = "round-trip isomorphism for all graphs / protocols (dill and pickle byte-level behaviour)"
@@ -241,12 +246,18 @@ def copy_by_object_protocol(h, roots):
         if isinstance(v, Obj):
             return clone(v)
         if isinstance(v, Seq):
-            return Seq([conv(x) for x in v.items], v.kind)
+            return carry(v, Seq([conv(x) for x in v.items], v.kind))
         if isinstance(v, DictV):
-            return DictV([[hashed(conv(k)), conv(x)] for k, x in v.pairs])
+            return carry(v, DictV([[hashed(conv(k)), conv(x)] for k, x in v.pairs]))
         if isinstance(v, SetV):
-            return SetV([hashed(conv(x)) for x in v.items], v.frozen)
+            return carry(v, SetV([hashed(conv(x)) for x in v.items], v.frozen))
         return v
+
+    def carry(v, n):
+        """an instance of a user class deriving from a built-in container is re-created as an instance of that class"""
+        if getattr(v, "ucls", None) is not None:
+            n.ucls, n.ufields = v.ucls, {k: conv(x) for k, x in v.ufields.items()}
+        return n
 
     def hashed(c):
         """the unpickler inserts elements into sets / dict keys as soon as they are created: a user __hash__ runs on the
@@ -290,15 +301,21 @@ def roundtrip_state(ctx, h, res):
     n = 0
     for dump_flag in (False, True):
         for load_flag in (False, True):
-            for warm in (False, True):
+            for warm in (False, True, "hashed-containers"):
                 try:
                     h.reset()
                     a, b, c = h.new("Vertex", "a"), h.new("Vertex", "b"), h.new("Vertex", "c")
                     e = h.new("DirectedEdge", "e", a, b)
                     u = h.new("Universe", "U", vertices=Seq([a, b, c], "list"))
+                    if warm == "hashed-containers":
+                        # graph objects that reach each other through hashed containers: run-time set / dict-key attributes in a cycle
+                        from sa.ae import SetV as _SetV, DictV as _DictV
+                        h.I.setattr(a, "peers", _SetV([b]))
+                        h.I.setattr(b, "peers", _SetV([a]))
+                        h.I.setattr(c, "rank_in", _DictV([[u, 3]]))
                     h.settle()
                     c05.set_flag(h, dump_flag)
-                    if warm:
+                    if warm is True:
                         h.call(nb, a)
                     a2, b2, c2, e2, u2 = copy_by_object_protocol(h, [a, b, c, e, u])
                     h.w.restore()      # fresh interpreter: class-level state is gone, instances keep theirs
@@ -311,7 +328,7 @@ def roundtrip_state(ctx, h, res):
                 except Raised as r:
                     n += 1
                     res.ob(False, sig=("roundtrip", dump_flag, load_flag, warm))
-                    res.violation("ROUNDTRIP-STATE", "edgegraph.structure.base.BaseObject", "reconstruction-raises",
+                    res.violation("ROUNDTRIP-STATE", "edgegraph.structure.base.BaseObject", "reconstruction-raises" + (",objects-in-sets-and-dict-keys" if warm == "hashed-containers" else ""),
                                   f"re-creating the objects through the object protocol raises {r} (a user __hash__/__setstate__ runs on an object of a reference cycle before its state is restored)")
                     continue
                 n += 1
